@@ -23,7 +23,7 @@ ASSUMPTIONS = [
 ]
 BUDGET = {
     "quick": {"examples": 300, "workers": 8, "time_cap": 70},
-    "thorough": {"examples": 10000, "workers": 14, "time_cap": 1500},
+    "thorough": {"examples": 10000, "workers": 14, "time_cap": 900},
 }
 
 
